@@ -154,6 +154,32 @@ def run_unit(prop, u, tier, scratch, keep=False):
                 d['trace'] = compact_trace(pr['trace'])
             out.append(d)
         res['results'] = out
+        # ---- thorough tier: second back end must agree obligation by obligation (guards against a solver defect)
+        if tier == 'thorough' and not u.get('solver_flag') and u.get('cross_check', True) and os.environ.get('VERIF_NO_CROSSCHECK') != '1':
+            second = 'minisat2' if 'cadical' in ' '.join(u.get('cbmc_flags', [])) else 'cadical'
+            cmd2 = [c for c in cmd if c not in ('--trace',)]
+            if '--sat-solver' in cmd2:
+                i = cmd2.index('--sat-solver'); del cmd2[i:i + 2]
+            cmd2 += ['--sat-solver', second]
+            r2 = sh(cmd2, cwd=wd, timeout=tmo, mem_gb=u.get('mem_gb', 16))
+            res['cmds'].append(' '.join(cmd2))
+            if r2['timeout']:
+                res['cross_check'] = dict(backend='sat(%s)' % second, status='timeout after %ss (first back end stands alone)' % tmo)
+            else:
+                try:
+                    st2 = {}
+                    for item in json.loads(r2['out']):
+                        for pr in item.get('result', []) if isinstance(item, dict) else []:
+                            st2[pr.get('property')] = pr.get('status')
+                except Exception:
+                    st2 = None
+                if not st2:
+                    res['cross_check'] = dict(backend='sat(%s)' % second, status='no result (first back end stands alone)')
+                else:
+                    dis = [d['id'] for d in out if st2.get(d['id']) != d['status'] and not (d['status'] == 'UNKNOWN' or st2.get(d['id']) == 'UNKNOWN')]
+                    if dis:
+                        raise Undecided('back ends disagree on %d obligations (first: %s): e.g. %s' % (len(dis), res['backend'], dis[:3]))
+                    res['cross_check'] = dict(backend='sat(%s)' % second, status='agrees on all %d obligations' % len(out), wall_s=round(r2['wall'], 2))
         res['status'] = 'ok'
     except Undecided as e:
         res['reason'] = str(e)
@@ -262,6 +288,7 @@ def main():
             pu = dict(unit=r['unit'], kind=r['kind'], bounded=r.get('bounded'), status=r['status'], wall_s=round(r['wall'], 2),
                       solver_s=r.get('solver_s'), backend=r['backend'], functions_under_contract=u.get('under_contract', []),
                       translated_functions=len(r['functions']), assumed_contracts=r['boundary'], obligations=0, discharged=0)
+            if r.get('cross_check'): pu['cross_check'] = r['cross_check']
             if r['status'] != 'ok':
                 undecided.append((u, r)); per_unit.append(pu); continue
             sentinel_seen = sentinel_failed = 0
